@@ -155,9 +155,7 @@ pub struct CoseSign {
 impl crate::CborSerializable for CoseSign {}
 impl crate::TaggedCborSerializable for CoseSign {
     #[verifier::external_body] const TAG: u64 = iana::CborTag::CoseSign as u64;
-}
-
-«pub open spec fn sigs_ok(v: Value) -> bool { v is Array && forall |j: int| 0 <= j < arr_of(v).len() ==> sig_ok(#[trigger] arr_of(v)[j], 0) }
+}«pub open spec fn sigs_ok(v: Value) -> bool { v is Array && forall |j: int| 0 <= j < arr_of(v).len() ==> sig_ok(#[trigger] arr_of(v)[j], 0) }
 pub open spec fn sigs_res(v: Value, s: Seq<CoseSignature>) -> bool { arr_of(v).len() == s.len() && forall |j: int| 0 <= j < s.len() ==> sig_res(#[trigger] arr_of(v)[j], 0, s[j]) }
 pub open spec fn sigs_cv(s: Seq<CoseSignature>) -> CV { CV::Array(Seq::new(s.len(), |j: int| sig_cv(s[j]))) }
 pub open spec fn sigs_encodable(s: Seq<CoseSignature>) -> bool { forall |j: int| 0 <= j < s.len() ==> sig_encodable(#[trigger] s[j]) }
@@ -172,6 +170,7 @@ pub open spec fn sign_cv(x: CoseSign) -> CV {
 }
 pub open spec fn sign_encodable(x: CoseSign) -> bool { prot_encodable(x.protected) && hdr_encodable(x.unprotected) && sigs_encodable(x.signatures@) }
 »
+
 impl AsCborValue for CoseSign {«
     open spec fn dec_rel(value: Value, r: Result<Self>) -> bool { (r is Ok <==> sign_ok(value)) && (r matches Ok(x) ==> sign_res(value, x)) }
     open spec fn enc_rel(self, r: Result<Value>) -> bool { (r is Ok <==> sign_encodable(self)) && (r matches Ok(v) ==> vv(v) == sign_cv(self)) }»
